@@ -54,6 +54,8 @@ type stsPlan struct {
 	OnDelete bool `json:"onDelete,omitempty"`
 	// Throttled: the API server answers every update of this StatefulSet with 429 Too Many Requests (retry after 1h)
 	Throttled bool `json:"throttled,omitempty"`
+	// Conflicting: every update of this StatefulSet is answered with 409 Conflict (another controller keeps writing it)
+	Conflicting bool `json:"conflicting,omitempty"`
 }
 
 type coordCase struct {
@@ -250,6 +252,9 @@ func execCoord(c *coordCase, only int) *coordObs {
 				if c.Sets[si].Throttled && c.Sets[si].Name == set.Name && c.Sets[si].ns() == set.Namespace {
 					return true, nil, apierrors.NewTooManyRequests("the server has received too many requests (scripted)", 3600)
 				}
+				if c.Sets[si].Conflicting && c.Sets[si].Name == set.Name && c.Sets[si].ns() == set.Namespace {
+					return true, nil, apierrors.NewConflict(appsv1.Resource("statefulsets"), set.Name, fmt.Errorf("the object has been modified; please apply your changes to the latest version and try again"))
+				}
 			}
 		}
 		return false, nil, nil
@@ -354,6 +359,7 @@ func runCoord(c *coordCase) (vs []vkit.Violation, classes []string) {
 	}
 	if obs.hung {
 		add("C18/harness", "the history did not finish within 20s")
+		add("C19/k8s/history-does-not-finish", "the %d cycles did not finish within 20s (they take milliseconds): what happens to one StatefulSet keeps all of them from being coordinated; sets %+v", c.Cycles, c.Sets)
 	}
 	if c.AllNS {
 		classes = append(classes, "coord/all-namespaces")
@@ -361,6 +367,10 @@ func runCoord(c *coordCase) (vs []vkit.Violation, classes []string) {
 	for si := range c.Sets {
 		if c.Sets[si].Throttled {
 			classes = append(classes, "coord/api-server-throttles-the-updates-of-one-statefulset")
+			break
+		}
+		if c.Sets[si].Conflicting {
+			classes = append(classes, "coord/every-update-of-one-statefulset-conflicts")
 			break
 		}
 	}
@@ -468,6 +478,9 @@ func genCoord(t *rapid.T) *coordCase {
 	for i := 0; i < n; i++ {
 		s := stsPlan{Name: names[i], Pods: rapid.IntRange(1, 3).Draw(t, fmt.Sprintf("pods%d", i)), OnDelete: rapid.IntRange(0, 3).Draw(t, fmt.Sprintf("onDelete%d", i)) == 0,
 			Throttled: rapid.IntRange(0, 5).Draw(t, fmt.Sprintf("throttled%d", i)) == 0}
+		if !s.Throttled && rapid.IntRange(0, 5).Draw(t, fmt.Sprintf("conflicting%d", i)) == 0 {
+			s.Conflicting = true
+		}
 		if c.AllNS {
 			s.NS = rapid.SampledFrom([]string{"", "tenant-b", "tenant-c"}).Draw(t, fmt.Sprintf("ns%d", i))
 			if i > 0 && rapid.Bool().Draw(t, fmt.Sprintf("sameName%d", i)) {
